@@ -42,7 +42,7 @@ def bounds(tier):
         return {'n_states': '1..2 full Cartesian', 'dist_level': 1, 'rewards': '{-1,0,1} (<=0 when undiscounted)',
                 'gamma': ['1/2', '9/10', '1'], 'variants': 'rotating (1 per spec)', 'eps': '1e-10 + rotating {1e-3,1e-5}',
                 'plus': 'n=3 chain family'}
-    return {'n_states': '1..2 full Cartesian (dist level 2, rewards {-2,-1,0,1}), n=3 reduced Cartesian, n=3,4 chain families',
+    return {'n_states': 'build.thorough_mdps(): n=2 Cartesian (rewards {-2..1}; dist level 2), n=3 with one two-action state, n=3,4 chain families (~6e5 specs)',
             'gamma': ['1/2', '9/10', '1'], 'variants': 'rotating', 'eps': '1e-10 + rotating {1e-3,1e-5}'}
 
 
@@ -60,12 +60,7 @@ def spec_items(tier):
         yield from build.enum_mdps(2, [('a',), ('a', 'b')], 1, [F(-1), F(1)], [()], [build.INIT_MENU[2][1]], [F(1, 2)])
         yield from build.chain_mdps(3, [F(9, 10), F(1)], [F(-1), F(0)])
     else:
-        yield from build.enum_mdps(2, AS, 1, R4, build.subsets(2), build.INIT_MENU[2], G)
-        yield from build.enum_mdps(2, [('a', 'b')], 2, [F(-1), F(0)], [()], [build.INIT_MENU[2][0]], [F(9, 10), F(1)])
-        yield from build.enum_mdps(3, [('a',), ('a', 'b')], 1, [F(-1), F(0)], [(), (2,)], [build.INIT_MENU[3][0]],
-                                   [F(9, 10), F(1)])
-        yield from build.chain_mdps(3, G, [F(-1), F(0), F(1)])
-        yield from build.chain_mdps(4, [F(9, 10), F(1)], [F(-1), F(0)])
+        yield from build.thorough_mdps()
 
 
 def items(tier, seed):
